@@ -33,6 +33,7 @@ def new_result(shape):
         "vcs": 0, "nontrivial": 0, "unsat": 0,
         "unknown": [],            # [{"vc":..., "detail":...}]
         "candidates": [],         # [{"vc":..., "site":..., "shape":..., "model":{...}, "detail":...}]
+        "witnesses": [],          # concrete inputs (models of feasible paths) to be run on the real build: encoding validation
         "samples": [],            # a few written-out obligations
         "twin_ok": None,          # reachability twin came back sat?
         "conformance_runs": 0,    # concrete runs of shim vs real library / translator vs impl
@@ -85,6 +86,21 @@ class VCSink:
         else:
             res["unknown"].append({"vc": vcid, "shape": res["shape"], "decisions": _short(path.decisions)})
         return r
+
+
+def add_witness(res, path, describe, vc="witness", site=None, limit=2):
+    """a model of the path condition = a concrete input that drives the real code down this path;
+    the framework replays a sample of them on the real build (must agree with the property's oracle)"""
+    if len(res["witnesses"]) >= limit:
+        return
+    from . import core
+    s = path.solver
+    if s.check() != core.z3.sat:
+        return
+    try:
+        res["witnesses"].append({"vc": vc, "site": site, "shape": res["shape"], "model": describe(s.model()), "witness": True})
+    except Exception as e:  # pragma: no cover
+        res["notes"].append("witness describe failed: %r" % (e,))
 
 
 def _short(dec):
@@ -182,16 +198,35 @@ def run_check(modname, tier, seed):
     violations, known_seen, spurious = [], [], []
     replays_run = 0
     max_replay = int(os.environ.get("VERIF_MAX_REPLAY", "4"))
+    # witnesses: a deterministic sample of feasible-path models, replayed on the real build
+    allw = [w for r in results for w in r.get("witnesses", [])]
+    n_w = int(os.environ.get("VERIF_WITNESSES", "8" if tier == "quick" else "24"))
+    if len(allw) > n_w:
+        step = len(allw) / float(n_w)
+        allw = [allw[int(((i + (seed % 7) / 7.0) * step)) % len(allw)] for i in range(n_w)]
+    witness_ok = 0
     with cf.ProcessPoolExecutor(max_workers=min(nproc, 8), mp_context=ctx) as ex:
         todo = []
         for sig, cands in groups.items():
             for c in cands[:max_replay]:
                 todo.append((sig, c, ex.submit(_worker, modname, "replay", c, tier)))
+        wtodo = [(w, ex.submit(_worker, modname, "replay", w, tier)) for w in allw]
         by_sig = {}
         for sig, c, fut in todo:
             rr = fut.result()
             replays_run += 1
             by_sig.setdefault(sig, []).append((c, rr))
+        for w, fut in wtodo:
+            rr = fut.result()
+            if rr.get("reproduced"):
+                # the real build violates the property's oracle on an input the encoding accepted
+                sig = ("%s.witness" % prop, w.get("site"))
+                by_sig.setdefault(sig, []).append((dict(w, vc=sig[0]), rr))
+                groups.setdefault(sig, []).append(w)
+            elif rr.get("error"):
+                inconclusive.append("witness replay failed to run: %s" % rr["error"][:300])
+            else:
+                witness_ok += 1
     os.makedirs(os.path.join(VERIF, "replays"), exist_ok=True)
     for sig, lst in by_sig.items():
         repro = [(c, rr) for c, rr in lst if rr.get("reproduced")]
@@ -243,7 +278,8 @@ def run_check(modname, tier, seed):
         "coverage": {
             "states": paths,
             "transitions": unsat,
-            "traces_validated_against_impl": replays_run + conf,
+            "traces_validated_against_impl": replays_run + conf + witness_ok,
+            "witness_replays_agreeing": witness_ok,
             "evaluations": vcs,
             "distinct_nontrivial": nontriv,
             "rule": "one evaluation = one verification condition (path condition AND NOT claim) decided by z3 over "
